@@ -142,6 +142,7 @@ PROPS['C08']['kani'] = {
     'thorough': [kset('c08', hs('c08_pwderiv_n', 'piecewise', [1, 2, 3, 4], 'pieces N = {n}', PWD) + [H('c15_segment_ops', 'piecewise', None, True, PWD[1:])])],
 }
 PROPS['C08']['level'] = 'other'
+PROPS['C08']['verus'] = ['u_polycalc', 'u_segment']
 PROPS['C08']['assumptions'] += [PARAM, 'bounded: Piecewise::derivative wiring checked for N <= 4 pieces (Kani, loops unwound)']
 PROPS['C08']['explanation'] += (' Piecewise/Segment::derivative wiring: Kani harness with recording OpTag pieces: same number of pieces, same order, '
                                 'every breakpoint bit-identical, each piece differentiated exactly once (N <= 4; Segment level loop-free, complete).')
@@ -164,15 +165,20 @@ def c11_set(ns):
 
 
 PROPS['C11'] = {
-    'verus': [],
+    'verus': ['u_segment'],
     'kani': {'quick': [kset('c11', c11_set([1, 2, 3, 4]))], 'thorough': [kset('c11', c11_set([1, 2, 3, 4]), timeout=6000)]},
     'probe': False,
     'level': 'other',
-    'explanation': 'Kani harnesses on the real integral_iter, integral_iter_ref, Piecewise::integral and Piecewise::indefinite with recording pieces '
+    'explanation': 'Per piece (Verus, unit u_segment, real bodies, ANY piece type satisfying the trait contracts): Segment::integral(knot) keeps the breakpoint, returns the piece\'s '
+                   'indefinite integral moved vertically by a constant (antideriv_of) and its value at knot.x is knot.y; Segment::indefinite keeps the breakpoint and the zero constant; '
+                   'Segment::translate / evaluate delegate to the piece. Wiring: '
+                   'Kani harnesses on the real integral_iter, integral_iter_ref, Piecewise::integral and Piecewise::indefinite with recording pieces '
                    '(STag -> ITag{id,k}, evaluate logs its argument): same number/order of pieces and bit-identical breakpoints, piece 0 anchored at the '
                    'given knot (indefinite: untranslated), piece i anchored at (end_{i-1}, F_{i-1}(end_{i-1})) so adjacent pieces agree at every interior '
                    'breakpoint; by-value and by-reference iterators satisfy the same contract; empty input gives empty output.',
-    'assumptions': [PARAM, 'bounded: number of pieces N <= 4',
+    'assumptions': [PARAM, FM_NOTE, 'bounded (Kani wiring): number of pieces N <= 4',
+                    'u_segment models `Translate` with `Evaluate` as a supertrait (in /repo the two traits are independent; every type implementing Translate also implements Evaluate) and states its contract through '
+                    'a spec relation shifted_by + trait lemma (value raised by c at every point of the domain); the concrete piece types discharge indefinite/translate/evaluate in C07, C09, C14, C01',
                     'that each concrete piece type integrates to an antiderivative through its knot is C07 (polynomials) and C09 (log-polynomials)',
                     'the recording piece uses exactly representable small integers for ordinates so that the chain relation is exact'],
 }
@@ -246,7 +252,7 @@ def c15_set(ns):
 
 
 PROPS['C15'] = {
-    'verus': [],
+    'verus': ['u_segment'],
     'kani': {'quick': [kset('c15', c15_set([1, 2, 3, 4]), extra=['--solver', 'kissat'])], 'thorough': [kset('c15', c15_set([1, 2, 3, 4, 5, 8]), extra=['--solver', 'kissat'])]},
     'probe': False,
     'level': 'other',
